@@ -39,6 +39,7 @@ deriving DecidableEq, Repr, Inhabited
 structure Mem where
   nextTxid : Nat := 1
   pm : Meta := {}                 -- `Pager.meta`
+  bm : Nat := 2                   -- `Pager.bitmap`: data pages 2 … bm-1 are marked allocated
   idLen : Nat := 0                -- `IdMap.i2e_len` (= next internal id)
   idStart : Nat := 0              -- `IdMap.i2e_start`
   exts : List Nat := []           -- `IdMap.i2e` / `e2i` (nodes visible to lookups)
@@ -80,6 +81,7 @@ def Step.label : Step → String
 inductive MemUpd where
   | bumpTxid                              -- `next_txid.fetch_add(1)`
   | setPm (m : Meta)                      -- `Pager.meta` := m
+  | setBm (b : Nat)                       -- `Pager.bitmap.set_allocated`
   | setIdStart (p : Nat)                  -- `IdMap.i2e_start`
   | incIdLen                              -- `IdMap.i2e_len += 1`
   | pushExt (x : Nat)                     -- `e2i.insert`, `i2l.push`, `i2e.push`
@@ -95,6 +97,7 @@ deriving Repr, Inhabited
 def applyUpd (m : Mem) : MemUpd → Mem
   | .bumpTxid => { m with nextTxid := m.nextTxid + 1 }
   | .setPm pm => { m with pm := pm }
+  | .setBm b => { m with bm := b }
   | .setIdStart p => { m with idStart := p }
   | .incIdLen => { m with idLen := m.idLen + 1 }
   | .pushExt x => { m with exts := m.exts ++ [x] }
@@ -194,7 +197,7 @@ def ensureA (ps : PS) (pid : Nat) : List Action × PS :=
   let bm := if pid < ps.bm then ps.bm else pid + 1
   let ext := ps.len < pid + 1
   let a2 := if ext then [ioA (.pg (.setLen (pid + 1)) (pid + 1))] else []
-  (a1 ++ a2 ++ flushA pm bm, { pm := pm, len := if ext then pid + 1 else ps.len, bm := bm })
+  (a1 ++ [memA (.setBm bm)] ++ a2 ++ flushA pm bm, { pm := pm, len := if ext then pid + 1 else ps.len, bm := bm })
 
 /-- `Pager::allocate_page`: the first page below `next_page_id` that the bitmap does not mark
     (there is one only after a power loss that kept a meta page write and lost the bitmap write
@@ -274,7 +277,7 @@ def nodeRecs : Nat → List Nat → List Rec
 def txRecs (txid base : Nat) (tx : Tx) : List Rec :=
   [.begin txid] ++ nodeRecs base tx.nodes ++ tx.edges.map .edge ++ tx.props.map .prop ++ [.commit txid]
 
-def Mem.ps (m : Mem) (vol : PImg) : PS := { pm := m.pm, len := vol.len, bm := vol.bm }
+def Mem.ps (m : Mem) (vol : PImg) : PS := { pm := m.pm, len := vol.len, bm := m.bm }
 def Mem.ws (m : Mem) (w : List Frag) : WS :=
   { isOpen := m.walOpen, checked := m.tailChecked, len := w.length, valid := validLen w }
 
@@ -489,7 +492,7 @@ def bootA (cfg : Cfg) (vol : PImg) : Except (List Action × Err) BootRes :=
   let st := pm0.i2eStart
   let n := if st = 0 then 0 else pm0.i2eLen
   let exts0 := (List.range n).map (getSlot vol.i2e)
-  let m0 : Mem := { pm := pm0, idStart := st, idLen := pm0.i2eLen, exts := exts0 }
+  let m0 : Mem := { pm := pm0, bm := ps.bm, idStart := st, idLen := pm0.i2eLen, exts := exts0 }
   -- IndexCatalog::open_or_create
   let catStep : Except Err (List Action × PS × Nat × List Nat) :=
     if pm0.catRoot = 0 then
@@ -524,7 +527,7 @@ def replayA (cfg : Cfg) (vol : PImg) (w : List Frag) (b : BootRes) : List Action
     let segs := sc.segs.map (fun k => (k, vol.segs.find? (fun s => s.key == k && s.complete)))
     if segs.any (fun s => s.2.isNone) then [.fail .segMissing] else
     let m1 : Mem := { b.m0 with
-      pm := b.ps.pm, catRootM := b.catRoot, catEntries := b.entries,
+      pm := b.ps.pm, bm := b.ps.bm, catRootM := b.catRoot, catEntries := b.entries,
       segs := segs.map (fun s => (s.1, (s.2.map (·.edges)).getD [])),
       epoch := sc.epoch, ckpt := sc.ckpt, proot := sc.proot, ptop := sc.ptop,
       nextTxid := max (sc.maxTxid + 1) 1 }
